@@ -37,8 +37,41 @@ def reachers(cg, targets):
     return seen
 
 
+def config_variants(tier):
+    """(tag, extra clang flags, extra units): the build-option dimension of C15 - code under #if WANT_TMP_REENTRANT /
+    WANT_TMP_DEBUG / WANT_ASSERT is part of the library although the pinned build never compiles it"""
+    import sa, compdb
+    out = [("built", [], None)]
+    y = sa.overlay_yaml({os.path.join(REPO, "config.h"): sa.config_h_variant("reentrant")},
+                        os.path.join(scratch(), "ov-reent.yaml"))
+    out.append(("tmp-reentrant", ["-ivfsoverlay", y], None))
+    if tier == "thorough":
+        y2 = sa.overlay_yaml({os.path.join(REPO, "config.h"): sa.config_h_variant("debug")},
+                             os.path.join(scratch(), "ov-debug.yaml"))
+        us = compdb.c_units()
+        for extra in ("tal-debug.c",):
+            if not os.path.exists(os.path.join(REPO, extra)):
+                raise AnalysisBroken("R-GLOBAL: %s vanished" % extra)
+            us = us + [compdb.Unit(extra, "c")]
+        out.append(("tmp-debug", ["-ivfsoverlay", y2], us))
+        out.append(("assert", ["-DWANT_ASSERT=1"], None))
+    return out
+
+
 def run_global(prop="C15", tier="quick"):
-    facts = ir_facts()
+    res = dict(findings=[], stats={}, samples=[], notes=[], obligations=0)
+    for tag, flags, us in config_variants(tier):
+        r = run_global_one(prop, ir_facts(tag=tag, extra_flags=flags, units_=us), tag)
+        res["findings"] += r["findings"]
+        res["samples"] += r["samples"] if tag == "built" else []
+        res["notes"] += ["[%s] %s" % (tag, n) for n in r["notes"]]
+        res["stats"][tag] = r["stats"]
+        res["obligations"] += r["obligations"]
+    res["exhaustive"] = True
+    return res
+
+
+def run_global_one(prop, facts, tag):
     res = dict(findings=[], stats={}, samples=[], notes=[])
     F = res["findings"]
     doc = {}
